@@ -1,4 +1,5 @@
 import QuillModel.Rot.RenderThm
+import QuillModel.Rot.RenderCal
 /-!
 # C14 — the rendered file names (any base file name)
 
@@ -79,6 +80,22 @@ theorem C14_rendered_names_distinct_partial (b : List Char) (hb : b ≠ []) (sch
     | some v' =>
       have : renderSfx sch v = renderSfx sch v' := String.toList_inj.mp (by simpa [sfxChars] using hs)
       rw [hinj v v' rfl rfl this]
+
+/-- **Distinct tracked files have distinct rendered names** — no premise on the rendering left: the calendar strings
+    `%Y%m%d[_%H%M%S]` are dot-free, non-empty (`renderSfx_dotFree_ne_nil`) and injective on instants from the epoch on
+    (`renderSfx_inj`). For every non-empty base file name and two entries of `_created_files` of one scheme (both undated,
+    both dated, or one the current file) whose suffix values are not before 1970: equal file names imply equal entries —
+    so "a rename never lands on an existing retained file" holds for the names on disk, not only for the structured ones. -/
+theorem C14_rendered_names_distinct (b : List Char) (hb : b ≠ []) (sch : Scheme) (a c : FileInfo)
+    (hkind : (a.sfx = none ↔ c.sfx = none) ∨ a = curInfo ∨ c = curInfo)
+    (hpos : (∀ v, a.sfx = some v → 0 ≤ v) ∧ (∀ v, c.sfx = some v → 0 ≤ v))
+    (h : renderNameL b sch a.name = renderNameL b sch c.name) : a = c :=
+  C14_rendered_names_distinct_partial b hb sch a c hkind (renderSfx_dotFree_ne_nil sch)
+    (fun v v' ha hc he => renderSfx_inj sch v v' (hpos.1 v ha) (hpos.2 v' hc) he) h
+
+/-- non-vacuity / sanity: two days and two seconds of 2023 render as expected and differently -/
+example : renderDay 19676 = "20231115" ∧ renderSec 1700006400 = "20231115_000000" ∧
+    renderSec 1700006401 = "20231115_000001" ∧ renderDay 19677 = "20231116" := by decide
 
 /-- **What the start-up scan sees.** If the base file name has an extension (`std::filesystem` sense: a dot that is not
     the leading character), every rotated name `_get_filename` produces from it — any index, any dot-free date — passes
